@@ -243,8 +243,8 @@ Proof.
   intros [HI Hhb] (Hfr & Hp & Hl). pose proof (iv_li true c s HI) as HL. unfold handle_close.
   destruct buf as [b|]; [|same_state].
   destruct (from_row_facts true (db s) _ HL Hfr) as (G & Hk & Hu & Hlive).
-  destruct (update_ok2 c HP Hrs s {| f_hdr := flush_hdr hd (clen b); f_data := b |} true true HI Hhb) as (s' & E & A & B);
-    cbn [f_hdr flush_hdr h_name h_link h_pax]; rewrite ?Hp, ?Hl; try assumption.
+  destruct (update_ok2 c HP Hrs s {| f_hdr := stamp_mtime (flush_hdr hd (clen b)) (clk s); f_data := b |} true true HI Hhb) as (s' & E & A & B);
+    cbn [f_hdr stamp_mtime flush_hdr h_name h_link h_pax]; rewrite ?Hp, ?Hl; try assumption.
   - exact I.
   - exists s', OOk. split; [exact E|split; assumption].
 Qed.
